@@ -21,7 +21,7 @@ RULE = ('(a) Utility::Match against the Gallina glob matcher: ALL patterns of le
         'declared per case through ScriptGlobal), the request carries filter_vars of that very name with a value that would flip the verdict (and names of navigation fields, this, globals), '
         'the user filter is on the generic path (match / regex / len / in) or on the targeted fast path, through GetFilterTargets with every handler\'s QueryDescription and the HTTP handlers; '
         'family join-same-name: Hosts named like CheckCommand / EventCommand / TimePeriod / Endpoint / Zone objects of the fixture, permissions differing per joined type, several joins per request '
-        'in every order, hosts and services as primary type, every serialised join observed; 45% of the mixed cases also declare globals and use free-name / function-call atoms. family attrs (round 5): GET /v1/objects/<type> through the real ObjectQueryHandler with every shape of attrs (absent, empty, ordinary fields, [config, navigation] fields, the object-valued navigation field Service.host, no_user_view fields, unknown names, fields of the other type), joins (bare prefix, <join>.<field> with ordinary / hidden / unknown fields, foreign prefixes), all_joins and meta (used_by, location, unknown), for users whose permission for the joined types is absent / plain / filtered: the KEY SET of every attrs dictionary, the joined objects, every config object embedded anywhere in a serialised value and the number of hidden fields among the keys are observed; one case compares the live reflection data of Host, Service, CheckCommand, EventCommand, TimePeriod, Endpoint with the regenerated field tables; family race (round 5): directed schedules - a modify / delete / action / query request (by URL name, name parameter, name list, type scan, fast path) is parked while the permission filter evaluates the target, another writer takes the name lock, deletes the target and creates a new object of the same name with other attributes, the request continues: which OBJECT was acted on is observed. non-trivial = the case contains a query that returned at least one object or was refused; distinct = distinct script text')
+        'in every order, hosts and services as primary type, every serialised join observed; 45% of the mixed cases also declare globals and use free-name / function-call atoms. family attrs (round 5): GET /v1/objects/<type> through the real ObjectQueryHandler with every shape of attrs (absent, empty, ordinary fields, [config, navigation] fields, the object-valued navigation field Service.host, no_user_view fields, unknown names, fields of the other type), joins (bare prefix, <join>.<field> with ordinary / hidden / unknown fields, foreign prefixes), all_joins and meta (used_by, location, unknown), for users whose permission for the joined types is absent / plain / filtered: the KEY SET of every attrs dictionary, the joined objects, every config object embedded anywhere in a serialised value and the number of hidden fields among the keys are observed; one case compares the live reflection data of Host, Service, CheckCommand, EventCommand, TimePeriod, Endpoint with the regenerated field tables; family race (round 5): directed schedules - a modify / delete / action / query request (by URL name, name parameter, name list, type scan, fast path) is parked while the permission filter evaluates the target, another writer takes the name lock, deletes the target and creates a new object of the same name with other attributes, the request continues: which OBJECT was acted on is observed. family permission-history (round 6): one user, a required permission, 2-4 requests (HasPermission, GetFilterTargets with both providers, the query / modify / delete / action handlers, the attribute query), then 1-4 rounds of [change the user\'s permissions in the running process: narrow / widen / revoke / add filter / remove filter / near miss through ModifyAttribute or - lists without filter - through POST /v1/objects/apiusers/<name> as another user, RestoreAttribute, delete + re-create the user object] followed by the SAME requests again plus fresh ones; family keepalive-identity (round 6): 2-4 additional ApiUsers (passwords incl. one containing a colon, names differing in case, some with client_cn; permission lists of different power), 1-4 real HttpServerConnections per case over TLS on a socketpair (25% with a certificate CN: of a user, of nobody), 6-12 steps: GET /v1/objects/<type> with valid credentials of changing users, wrong / prefix / extended / case-changed / empty password, unknown / deleted / case-changed user, credentials without colon, no header, other schemes (Bearer, basic, BASIC, Digest, bare Basic, bare base64), Connection: close, interleaved with runtime changes of users (permissions set / restored, user deleted, deleted and re-created with another password); requests are also sent on connections that correct code has already closed. non-trivial = the case contains a query that returned at least one object or was refused (401 / 404 / error); distinct = distinct script text')
 TRUSTED = ['model: coq/Perm/PmModel.v (transcription of FilterUtility::HasPermission/CheckPermission/EvaluateFilter/GetFilterTargets, '
            'ApplyRule::GetTargetHosts/GetTargetServices, the filter_vars shadowing guard, the namespace resets of the permission frame, the joins loop of ObjectQueryHandler; glob matcher proved equivalent to a declarative '
            'spec and compared exhaustively with Utility::Match on short strings)',
@@ -34,6 +34,7 @@ TRUSTED = ['model: coq/Perm/PmModel.v (transcription of FilterUtility::HasPermis
            'navigation fields of Host/Service from the .ti files, structure of EvaluateFilter\'s binding loop (coq/Facts/Facts_c18.v)',
            'harness/ops_pm.cpp: exception classes (ScriptError / invalid_argument), object sets and HTTP status are observed; no log text',
            'attribute model coq/Perm/PmAttrs.v (transcription of ObjectQueryHandler::SerializeObjectAttrs and of the per-object part of HandleRequest: meta, attrs, joins), generic in the field table; the tables are regenerated from the .ti files and lib/base/objecttype.cpp (coq/Facts/Facts_c18.v f_pm_field_tables) and compared as sets with the live reflection data (op pm_fields); an embedded config object is recognised in a response as a dictionary with type = a config type and __name',
+           'history model coq/Perm/PmUsers.v (transcription of ApiUser::GetByAuthHeader / GetByClientCN and of the identity part of HttpServerConnection::ProcessMessages; ConfigObject::ModifyAttribute / RestoreAttribute of a whole attribute = assignment / back to the config value; objects have identities, the registry maps names); the theorems are generic in the decision function of a request; Base64::Decode, the beast HTTP parser, TLS and the verification of client certificates are trusted (the harness passes the CN as identity, as ApiListener does after verification); the two configuration switches of the model are tied to the tree by the source facts f_pm_perms_read_fresh and f_pm_auth_user_per_request',
            'concurrency model coq/Perm/PmConc.v: GetFilterTargets is ONE atomic step whose result satisfies C18_only_permitted at that moment (linearised at the resolution of the target), registry operations are atomic, ObjectNameLock is mutual exclusion per name, an object keeps the attributes it had when it was authorised; the tie samples ONE directed schedule per request shape (parking inside the permission filter through a side-effect-free native function pm_sig registered by the harness; no hook in /repo)']
 ASSUMPTIONS = ['ASCII permission strings and object names (String::ToLower and tolower agree on ASCII)',
                'object names are unique per type (ConfigObject registry) and contain no "!" (enforced by Icinga name validation)',
@@ -41,6 +42,8 @@ ASSUMPTIONS = ['ASCII permission strings and object names (String::ToLower and t
                'a free name keeps its kind (string / array of strings) in globals and filter_vars; regex literals are [A-Za-z0-9-]+',
                'the used_by meta list and get_object() inside user filters are outside the statement (DESIGN.md C18)',
                'attribute names and join selectors are non-empty ASCII strings; values nested inside vars never hold config objects',
+               'ApiUser names are unique, non-empty, contain no colon; no ApiUser has an empty password; client_cn values are unique among the users of a case; Authorization values are well-formed (Basic + valid base64, or another scheme / no blank)',
+               'histories are sequential: a user is not changed WHILE one of its requests is being processed',
                'the fixture objects are not API-created, so DELETE is refused by ConfigObjectUtility::DeleteObject for every object: for delete the race op can only observe that the NEW object stays untouched']
 
 
